@@ -903,6 +903,9 @@ func runC17(w *W) {
 	w.CountN("expected_zero_or_default_filled", uint64(ev.usedZero))
 	w.CountN("expected_left_absent", uint64(ev.usedNoValue))
 	w.Count("body_" + hBodyNames[bodyKind])
+	if g.usedCommaBlank {
+		w.Count("comma_list_element_with_edge_blank")
+	}
 	if !o.Mapping {
 		w.Count("control_worlds_mapping_off")
 	}
